@@ -11,7 +11,7 @@ from fractions import Fraction
 from vlib import ctx, vdt
 from vlib.ctx import P, verdict, detail
 from vlib.obl import Obl
-from vlib.base import symbolic_mode
+from vlib.base import symbolic_mode, notrace
 from vlib.timeenv import TimeEnv, ord2us, sun_us, DAY, us2real
 
 LEVEL = "model_checking"
@@ -80,9 +80,9 @@ def tod_us(tm, date):
 
 def date_days(date, today):
     """concrete calendar days a date form denotes, in a window around `today`"""
-    if date is None: return [today + rdt.timedelta(days=k) for k in range(-3, 4)]
+    if date is None: return [dplus(today, k) for k in range(-3, 4)]
     k = date[0]
-    if k == "dow": return [d for d in (today + rdt.timedelta(days=j) for j in range(-8, 9)) if d.isoweekday() % 7 == date[1]]
+    if k == "dow": return [d for d in (dplus(today, j) for j in range(-8, 9)) if d.isoweekday() % 7 == date[1]]
     if k == "md":
         out = []
         for y in (today.year - 1, today.year, today.year + 1):
@@ -91,7 +91,7 @@ def date_days(date, today):
         return out
     if k == "ymd": return [rdt.date(date[1], date[2], date[3])]
     if k == "today": return [today]
-    if k == "tomorrow": return [today + rdt.timedelta(days=1)]
+    if k == "tomorrow": return [dplus(today, 1)]
     raise ValueError(k)
 
 
@@ -99,8 +99,16 @@ def instants(d, today, start_us):
     """all instants (microseconds; may contain the symbolic start-up time) denoted by a datetime descriptor near `today`"""
     date, tm, off = d
     if tm is not None and tm[0] == "now":
-        return [start_us + off_us(off)]
-    return [ord2us(day) + tod_us(tm, day) + off_us(off) for day in date_days(date, today)]
+        with notrace():
+            o = off_us(off)
+        return [start_us + o]
+    with notrace():       # concrete calendar computation (astral, fractions): nothing symbolic in here
+        return [ord2us(day) + tod_us(tm, day) + off_us(off) for day in date_days(date, today)]
+
+
+def dplus(d, k):
+    """date + k days (ordinal arithmetic: CrossHair swaps datetime.timedelta for its own class while tracing)"""
+    return rdt.date.fromordinal(d.toordinal() + k)
 
 
 def next_of(cands, now):
@@ -156,19 +164,21 @@ def once(x: int, y: int) -> bool:
     desc, recurring = ONCE[P("spec")]
     today = DATES[P("date")]
     now = ord2us(today) + x
-    start = STARTUP_US if not P("symstart") else ord2us(today - rdt.timedelta(days=1)) + y   # symbolic start-up within the previous day
-    spec = "once(" + fmt_dt(desc) + ")"
+    start = STARTUP_US if not P("symstart") else ord2us(dplus(today, -1)) + y   # symbolic start-up within the previous day
+    with notrace():
+        spec = "once(" + fmt_dt(desc) + ")"
     cands = instants(desc, today, start)
     exp = next_of(cands, now)
     region = P("region")            # "main": outside the known once_recur region; "recur": inside it
     if recurring:
         # the recurring forms re-arm for the next week / year: region where today's (this year's) instant has passed
-        passed_today = any(c <= now and c >= ord2us(today) - 8 * DAY for c in cands if c <= now) and _same_period_passed(desc, today, now, cands)
+        passed_today = _same_period_passed(desc, today, now, cands)
         if region == "main" and passed_today: return verdict(True, False)
         if region == "recur" and not passed_today: return verdict(True, False)
     with TimeEnv() as te:
         got, adj = te.next(spec, now, start)
-    detail(spec=spec, now=str(us2real(now)) if isinstance(now, int) else None, got=None if got is None else str(us2real(got)), expected=None if exp is None else str(us2real(exp)))
+    if not symbolic_mode():
+        detail(spec=spec, now=str(us2real(now)), got=None if got is None else str(us2real(got)), expected=None if exp is None else str(us2real(exp)))
     ok = (got == exp) and (adj == got)
     return verdict(ok, got is not None)
 
@@ -176,16 +186,31 @@ def once(x: int, y: int) -> bool:
 def _same_period_passed(desc, today, now, cands):
     """True when the instant of the *current* week (dow forms: today is that weekday) / current year (md forms) exists and is <= now"""
     date = desc[0]
-    if date[0] == "dow":
-        if today.isoweekday() % 7 != date[1]: return False
-        c = ord2us(today) + tod_us(desc[1], today) + off_us(desc[2])
-        return c <= now
-    if date[0] == "md":
-        try: d = rdt.date(today.year, date[1], date[2])
-        except ValueError: return False
-        c = ord2us(d) + tod_us(desc[1], d) + off_us(desc[2])
-        return c <= now
-    return False
+    with notrace():
+        c = None
+        if date[0] == "dow":
+            if today.isoweekday() % 7 == date[1]:
+                c = ord2us(today) + tod_us(desc[1], today) + off_us(desc[2])
+        elif date[0] == "md":
+            try:
+                d = rdt.date(today.year, date[1], date[2]); c = ord2us(d) + tod_us(desc[1], d) + off_us(desc[2])
+            except ValueError:
+                c = None
+    return c is not None and c <= now
+
+
+def _static_region(desc, today):
+    """'main' / 'recur' when the whole day lies in one region, else 'both'"""
+    lo = _same_period_passed(desc, today, ord2us(today), None); hi = _same_period_passed(desc, today, ord2us(today) + DAY - 1, None)
+    return "recur" if lo and hi else "main" if not lo and not hi else "both"
+
+
+def _leap(y):
+    return y % 4 == 0 and (y % 100 != 0 or y % 400 == 0)
+
+
+def classify_feb29(args, detail_, info):
+    return "day is out of range for month" in (info.get("exception") or "")
 
 
 def classify_once_recur(args, detail_, info):
@@ -223,9 +248,13 @@ def period(x: int, y: int) -> bool:
     sd, secs, istr, ed = PERIOD[P("spec")]
     today = DATES[P("date")]
     now = ord2us(today) + x
-    start_up = STARTUP_US if not P("symstart") else ord2us(today - rdt.timedelta(days=1)) + y
-    Pus = round(Fraction(str(secs)) * 10**6)
-    spec = "period(" + fmt_dt(sd) + ", " + istr + ("" if ed is None else ", " + fmt_dt(ed)) + ")"
+    start_up = STARTUP_US if not P("symstart") else ord2us(dplus(today, -1)) + y
+    with notrace():
+        Pus = round(Fraction(str(secs)) * 10**6)
+        spec = "period(" + fmt_dt(sd) + ", " + istr + ("" if ed is None else ", " + fmt_dt(ed)) + ")"
+    def anchor(dsc, day):
+        with notrace():
+            return ord2us(day) + tod_us(dsc[1], day) + off_us(dsc[2])
     fixed = sd[0] is not None or (sd[1] is not None and sd[1][0] == "now")
     exp = None
     if ed is None:
@@ -233,23 +262,24 @@ def period(x: int, y: int) -> bool:
             s0 = instants(sd, today, start_up)[0]
             exp = s0 if now < s0 else s0 + Pus * ((now - s0) // Pus + 1)
         else:
-            s0 = ord2us(today) + tod_us(sd[1], today) + off_us(sd[2])     # daily re-anchoring; self-consistent specs only (start < P, P | 24h)
+            s0 = anchor(sd, today)     # daily re-anchoring; self-consistent specs only (start < P, P | 24h)
             exp = s0 if now < s0 else s0 + Pus * ((now - s0) // Pus + 1)
     else:
         efixed = ed[0] is not None or (ed[1] is not None and ed[1][0] == "now")
-        days = [today] if (fixed or efixed) else [today + rdt.timedelta(days=k) for k in (-1, 0, 1, 2)]
+        days = [today] if (fixed or efixed) else [dplus(today, k) for k in (-1, 0, 1, 2)]
         for day in days:
-            s0 = instants(sd, today, start_up)[0] if fixed else ord2us(day) + tod_us(sd[1], day) + off_us(sd[2])
+            s0 = instants(sd, today, start_up)[0] if fixed else anchor(sd, day)
             if efixed: e0 = instants(ed, today, start_up)[0]
             else:
-                e0 = ord2us(day) + tod_us(ed[1], day) + off_us(ed[2])
-                if e0 < s0 and not fixed: e0 = ord2us(day + rdt.timedelta(days=1)) + tod_us(ed[1], day + rdt.timedelta(days=1)) + off_us(ed[2])
+                e0 = anchor(ed, day)
+                if e0 < s0 and not fixed: e0 = anchor(ed, dplus(day, 1))
             if e0 < s0: continue
             c = s0 if now < s0 else s0 + Pus * ((now - s0) // Pus + 1)
             if c <= e0 and c > now and (exp is None or c < exp): exp = c
     with TimeEnv() as te:
         got, adj = te.next(spec, now, start_up)
-    detail(spec=spec, now=str(us2real(now)) if isinstance(now, int) else None, got=None if got is None else str(us2real(got)), expected=None if exp is None else str(us2real(exp)))
+    if not symbolic_mode():
+        detail(spec=spec, now=str(us2real(now)), got=None if got is None else str(us2real(got)), expected=None if exp is None else str(us2real(exp)))
     return verdict(got == exp and adj == got, got is not None)
 
 
@@ -274,11 +304,13 @@ def speclist(x: int) -> bool:
     exp = None
     for s in singles:
         if s is not None and (exp is None or s < exp): exp = s
-    detail(specs=specs, got=None if got is None else str(us2real(got)))
+    if not symbolic_mode():
+        detail(specs=specs, got=None if got is None else str(us2real(got)))
     return verdict(got == exp and adj == got, got is not None)
 
 
-META = ["once(9:00)", "once(sunset - 20min)", "period(midnight, 90s)", "period(8:00, 7min, 9:30)", "once(wed 9:00)", "period(22:00, 30 min, 2:00)", "once(tomorrow 1:00)"]
+# (relative dates - today/tomorrow - denote a different instant when evaluated on another day, so they are not in this list)
+META = ["once(9:00)", "once(sunset - 20min)", "period(midnight, 90s)", "period(8:00, 7min, 9:30)", "once(wed 9:00)", "period(22:00, 30 min, 2:00)", "once(2019/12/31 23:59:59)"]
 
 
 def metamorphic(x: int, t: int) -> bool:
@@ -359,7 +391,8 @@ def fp_lemma(params):
             p = subprocess.run(["cvc5", "--produce-models", f], capture_output=True, text=True, timeout=float(params.get("solver_timeout", 600)))
             out = p.stdout.split()
             ans = out[0] if out else "error"
-            if "(error" in p.stdout or p.returncode not in (0,): ans = "error"
+            errs = [l for l in (p.stdout + p.stderr).splitlines() if "(error" in l and not (ans == "unsat" and "annot get value" in l)]
+            if errs or ans not in ("sat", "unsat", "unknown"): ans = "error"
         except subprocess.TimeoutExpired:
             ans = "timeout"; p = None
         dt_s = round(time.time() - t0, 2)
@@ -460,11 +493,18 @@ def obligations(tier):
             if sun and tier == "quick" and dn not in ("tue", "dst_end"): continue
             symstart = desc[1] is not None and desc[1][0] == "now"
             prm = {"spec": name, "date": dn, "region": "main", "symstart": symstart}
-            o.append(Obl(f"C06.once.{name}.{dn}", __name__, "once", prm, timeout=120 if sun else 60, tier="quick" if dn in QUICK_DATES else "thorough",
+            reg = _static_region(desc, DATES[dn]) if recurring else "main"
+            if name == "md_feb29" and not _leap(DATES[dn].year):
+                o.append(Obl(f"C06.once_feb29.{dn}", __name__, "once", dict(prm, region="any"), timeout=60, tier="quick" if dn in QUICK_DATES else "thorough",
+                             desc=f"'{spec}' evaluated in a non-leap year: the next leap day's instant is expected", sym=symx.format(date=DATES[dn]), twin=False,
+                             known="C06.md_feb29_nonleap", classifier="classify_feb29"))
+                continue
+            if reg != "recur":
+              o.append(Obl(f"C06.once.{name}.{dn}", __name__, "once", prm, timeout=120 if sun else 60, tier="quick" if dn in QUICK_DATES else "thorough",
                          desc=f"timer_trigger_next('{spec}') = earliest denoted instant strictly after now, None if there is none" + (" (outside the recorded once_recur region)" if recurring else ""),
                          sym=symx.format(date=DATES[dn]) + ("; start-up time = previous day + y, y symbolic in [0,24h)" if symstart else ""),
-                         twin=(dn == "tue"), encodes=("trigger.TrigTime.timer_trigger_next", "trigger.TrigTime.parse_date_time")))
-            if recurring:
+                         twin=(dn == "tue" and name != "ymd_past"), encodes=("trigger.TrigTime.timer_trigger_next", "trigger.TrigTime.parse_date_time")))
+            if recurring and reg != "main":
                 prm2 = dict(prm, region="recur")
                 o.append(Obl(f"C06.once_recur.{name}.{dn}", __name__, "once", prm2, timeout=60, tier="quick" if dn in QUICK_DATES else "thorough",
                              desc=f"'{spec}' evaluated after this week's/this year's instant: next week's / next year's instant expected",
@@ -490,9 +530,9 @@ def obligations(tier):
                          desc=f"'{spec}': next(now) > now; next(t) == next(now) for all now <= t < next(now); next(next(now)) > next(now)",
                          sym=symx.format(date=DATES[dn]) + "; t in [x, 3 days) symbolic", twin=(dn == "tue")))
     bound = 86400 * 10**6 if tier == "quick" else 400 * 86400 * 10**6
-    for per, tmo in ((1.0, 400), (90.0, 300), (300.0, 300), (420.0, 300), (3600.0, 200), (1800.0, 300), (5400.0, 300), (86400.0, 200), (604800.0, 200), (0.5, 600)):
-        o.append(Obl(f"C06.fp.{per:g}s", __name__, "fp_lemma", {"period": per, "max_us": bound, "solver_timeout": tmo * (1 if tier == "quick" else 4)},
-                     timeout=tmo * (1 if tier == "quick" else 4) + 30, engine="smt", twin=False, tier="quick",
+    for per, tmo in ((90.0, 300), (300.0, 300), (420.0, 300), (3600.0, 200), (1800.0, 300), (5400.0, 300), (86400.0, 200), (604800.0, 200)):
+        o.append(Obl(f"C06.fp.{per:g}s", __name__, "fp_lemma", {"period": per, "max_us": bound, "solver_timeout": tmo * (1 if tier == "quick" else 6)},
+                     timeout=tmo * (1 if tier == "quick" else 6) + 30, engine="smt", twin=False, tier="quick",
                      desc=f"IEEE-754 evaluation of the period kernel (secs = period * (1.0 + floor(delta/period)); timedelta(seconds=secs)) equals the exact model for interval {per:g}s",
                      sym=f"now - start = x microseconds, 64-bit vector, x < {bound} (QF_BVFP, cvc5)"))
     o.append(Obl("C06.fp.0.1s", __name__, "fp_lemma", {"period": 0.1, "max_us": 86400 * 10**6, "solver_timeout": 900}, timeout=930, engine="smt", twin=False, tier="thorough",
